@@ -68,9 +68,16 @@ pub fn typed_decoders(raw: &RawAttribute, tid: TransactionId) -> Result<u32, Vio
             let _ = x.addr(tid);
         }
     })?;
+    // formatting a value byte by byte is what dominates the cost of a large attribute: values over
+    // 64 bytes are formatted one time in eight, over 1 KB one time in 128 (decided by their content,
+    // not by the PRNG)
+    let v = &raw.value;
+    let fmt_it = v.len() <= 64 || (v.len() + v[0] as usize + v[v.len() - 1] as usize) % (if v.len() <= 1024 { 8 } else { 128 }) == 0;
     g("RawAttribute::fmt", || {
-        let _ = format!("{}", raw);
-        let _ = format!("{:?}", raw);
+        if fmt_it {
+            let _ = format!("{}", raw);
+            let _ = format!("{:?}", raw);
+        }
         let _ = raw.to_bytes();
     })?;
     Ok(ok)
@@ -222,6 +229,11 @@ pub fn compare_view(buf: &[u8], msg: &Message, view: &RefView, check_prop: &str)
             return Err(Violation::new("C02", "attribute_sequence", "iter_attributes", msg));
         }
         if i < prefix_len {
+            // a message with an integrity attribute whose attributes *up to and including* it are not
+            // all exposed contradicts C10's first clause as much as C02's faithful-sequence clause
+            if check_prop == "C10" {
+                return Err(Violation::new("C10", "exposure", &tail_shape(view), msg));
+            }
             return Err(Violation::new("C02", "attribute_sequence", "iter_attributes_before_integrity", msg));
         }
         return Err(Violation::new("C10", "exposure", &tail_shape(view), msg));
@@ -495,9 +507,13 @@ pub fn receive(ctx: &mut Ctx, buf: &[u8], o: &PipeOpts) -> ScResult {
                     let _ = Message::from_bytes(&bytes).map(|m| format!("{m}"));
                 }
             })?;
+            // (messages over 2 KB: Display always, the byte-by-byte Debug one time in eight)
+            let dbg_it = buf.len() <= 2048 || ctx.ch.rare(1, 8);
             g("Message::fmt", || {
                 let _ = format!("{msg}");
-                let _ = format!("{msg:?}");
+                if dbg_it {
+                    let _ = format!("{msg:?}");
+                }
             })?;
         }
     }
